@@ -17,11 +17,14 @@ def finals (l : List Nat) : List Nat := l.filter (fun c => !isMark c)
 
 def transferVerbs : List Verb := [.retr, .stor, .appe, .list, .mlsd]
 
-/-- **unknown_502**: an unsupported verb gets 502 and changes nothing at all -/
+/-- **unknown_502**: an unsupported verb gets 502 and changes nothing but the restart offset, which it
+    clears (like every other command that is not a transfer) -/
 theorem unknown_502 (cfg : Cfg) (w : World) (s : SState) (name rest : Str) (payload : Bytes)
     (h : verbOf name = none) :
-    dispatch cfg w s name rest payload = (w, s, { replies := [502] }) := by
+    dispatch cfg w s name rest payload = (w, { s with restartOffset := 0 }, { replies := [502] }) := by
   unfold dispatch; rw [h]
+  simp only [resetRestart, dispatchEffect, h]
+  rfl
 
 /-- table obligations (re-decided whenever the decorators in the source change) -/
 theorem guards_wellformed (v : Verb) : v.guards.all guardOk = true := guards_wellformed_b v (all_verbs v)
@@ -91,22 +94,22 @@ theorem crash_only_rest (cfg : Cfg) (w : World) (s : SState) (name rest : Str) (
       | dele => simp only [body] at hc; split at hc <;> simp at hc
       | mlst => simp [body] at hc
       | rnfr => simp [body] at hc
-      | list => simp only [body, worker] at hc; split at hc <;> simp at hc
-      | mlsd => simp only [body, worker] at hc; split at hc <;> simp at hc
+      | list => simp only [body, worker, workerK] at hc; split at hc <;> simp at hc
+      | mlsd => simp only [body, worker, workerK] at hc; split at hc <;> simp at hc
       | retr =>
-        simp only [body, worker] at hc
+        simp only [body, worker, workerK] at hc
         split at hc
         · simp at hc
         · split at hc <;> simp at hc
       | stor =>
-        simp only [body, worker] at hc
+        simp only [body, worker, workerK] at hc
         split at hc
         · split at hc
           · simp at hc
           · split at hc <;> simp at hc
         · simp at hc
       | appe =>
-        simp only [body, worker] at hc
+        simp only [body, worker, workerK] at hc
         split at hc
         · split at hc
           · simp at hc
@@ -167,7 +170,7 @@ theorem body_reply_shape (cfg : Cfg) (w : World) (s : SState) (v : Verb) (rest :
     simp only [body]
     exact key _
   all_goals
-    simp only [body, worker] at hc ⊢ <;> (repeat' split) <;>
+    simp only [body, worker, workerK] at hc ⊢ <;> (repeat' split) <;>
       simp_all [finals, marks, isMark, transferVerbs]
 
 /-- **one_final_reply.**  Every command that is answered at all gets exactly one final reply, preceded by
@@ -241,7 +244,7 @@ theorem session_ends_only_after (cfg : Cfg) (w : World) (s : SState) (name rest 
     | pass =>
       simp only [hg] at hd hc ⊢
       have h522 : Verb.epsv.closingCodes.contains 522 = false := by decide
-      cases v <;> simp only [body, worker, h522] at hd hc ⊢ <;> (repeat' split at hd) <;>
+      cases v <;> simp only [body, worker, workerK, h522] at hd hc ⊢ <;> (repeat' split at hd) <;>
         simp_all
 
 /-- the set of replies after which a handler returns False, as the translator found it in the source -/
@@ -259,43 +262,95 @@ theorem epsv_argument_keeps_session (cfg : Cfg) (w : World) (s : SState) (rest :
 
 /-! ### restart offset: scope -/
 
-/-- **rest_scope_partial**: every known verb outside the dispatcher's keep-set, other than REST itself,
-    leaves the restart offset at 0 — whatever it was before. -/
-theorem rest_scope_partial (cfg : Cfg) (w : World) (s : SState) (name rest : Str) (payload : Bytes)
-    (v : Verb) (hv : verbOf name = some v) (hk : keepsRestart name = false) (hr : v ≠ .rest) :
+/-- what the dispatcher does to the two offsets before the handler runs, as the translator interpreted the
+    source: the restart offset is cleared for EVERY command (REST sets it again in its handler), and a
+    RETR/STOR/APPE receives the old value as its transfer offset -/
+theorem dispatch_offsets_table :
+    (∀ v ∈ Verb.all, v.dispatchOffsets =
+      (if v ∈ [Verb.retr, .stor, .appe] then (OffSrc.zero, OffSrc.restart) else (OffSrc.zero, OffSrc.transfer))) ∧
+    dispatchOffsetsUnknown = (OffSrc.zero, OffSrc.transfer) := by decide
+
+/-- the three file-transfer workers seek to the offset handed over at dispatch, nothing else -/
+theorem offset_field_table :
+    (Verb.all.filter (fun v => v.offsetField ≠ "")).map (fun v => (v.name, v.offsetField)) =
+      [("appe", "transfer_offset"), ("retr", "transfer_offset"), ("stor", "transfer_offset")] := by decide
+
+theorem all_verbs_mem (v : Verb) : v ∈ Verb.all := by cases v <;> decide
+
+/-- at dispatch the restart offset is cleared, whatever the command -/
+theorem dispatch_clears_restart (name : Str) (s : SState) : (resetRestart name s).restartOffset = 0 := by
+  simp only [resetRestart, dispatchEffect]
+  cases hv : verbOf name with
+  | none => simp [dispatch_offsets_table.2, evalOff]
+  | some v =>
+    have := dispatch_offsets_table.1 v (all_verbs_mem v)
+    simp only [this]
+    split <;> rfl
+
+/-- **rest_scope** (full strength; finding F2 repaired in /repo b5719d5): EVERY command other than REST itself —
+    a transfer, a refused transfer, any other verb, an unknown verb — leaves the restart offset at 0, whatever
+    it was before and whatever the command's outcome. -/
+theorem rest_scope (cfg : Cfg) (w : World) (s : SState) (name rest : Str) (payload : Bytes)
+    (hr : verbOf name ≠ some .rest) :
     (dispatch cfg w s name rest payload).2.1.restartOffset = 0 := by
   unfold dispatch
-  simp only [hv]
-  unfold runVerb
-  have h0 : (resetRestart name s).restartOffset = 0 := by simp [resetRestart, hk]
-  generalize resetRestart name s = s0 at h0 ⊢
-  cases hg : runGuards cfg w s0 (argOf s0 v rest) v.guards with
-  | fail c => simpa using h0
-  | silent => simpa using h0
-  | crash => simpa using h0
-  | pass =>
+  cases hv : verbOf name with
+  | none => exact dispatch_clears_restart name s
+  | some v =>
+    have hvr : v ≠ .rest := fun h => hr (by rw [hv, h])
     simp only []
-    cases v <;> simp only [body, worker] <;> (repeat' split) <;> simp_all
+    unfold runVerb
+    have h0 := dispatch_clears_restart name s
+    generalize resetRestart name s = s0 at h0 ⊢
+    cases hg : runGuards cfg w s0 (argOf s0 v rest) v.guards with
+    | fail c => simpa using h0
+    | silent => simpa using h0
+    | crash => simpa using h0
+    | pass =>
+      simp only []
+      cases v <;> simp only [body, worker, workerK] <;> (repeat' split) <;> simp_all
 
-theorem restart_keep_table : restartKeep = ["retr", "stor", "appe"] := by decide
+/-- **rest_applies_to_next_transfer**: the transfer command that immediately follows sees exactly the offset
+    REST left (`s.restartOffset`), for each of RETR, STOR and APPE -/
+theorem rest_applies_to_next_transfer (name : Str) (s : SState) (v : Verb) (hv : verbOf name = some v)
+    (ht : v ∈ [Verb.retr, .stor, .appe]) :
+    xferOffset v (resetRestart name s) = s.restartOffset := by
+  simp only [List.mem_cons, List.not_mem_nil, or_false] at ht
+  rcases ht with rfl | rfl | rfl <;>
+    simp (config := {decide := true}) [xferOffset, resetRestart, dispatchEffect, hv, Verb.offsetField,
+      Verb.dispatchOffsets, evalOff]
 
-/-- **rest_survives_transfer** (finding F2, negation of the full `rest_scope`): after `REST 3`, a completed
-    `RETR` leaves the offset at 3, so the next transfer starts at 3 as well. -/
-theorem rest_survives_transfer :
+/-- **offset_only_for_the_next_transfer**: after any command other than REST, a transfer command sees offset 0 -/
+theorem offset_only_for_the_next_transfer (cfg : Cfg) (w : World) (s : SState) (name rest : Str) (payload : Bytes)
+    (hr : verbOf name ≠ some .rest) (name₂ : Str) (v : Verb) (hv : verbOf name₂ = some v)
+    (ht : v ∈ [Verb.retr, .stor, .appe]) :
+    xferOffset v (resetRestart name₂ (dispatch cfg w s name rest payload).2.1) = 0 := by
+  rw [rest_applies_to_next_transfer name₂ _ v hv ht]
+  exact rest_scope cfg w s name rest payload hr
+
+/-- the replay of finding F2 on the tree as it is now: `REST 3` pending, the first RETR starts at 3 and clears
+    the offset, the second RETR delivers the whole file -/
+theorem second_transfer_starts_at_zero :
     let cfg : Cfg := ⟨[⟨none, none, ⟨1, []⟩, [], none⟩], none, false⟩
     let w : World := ⟨[(["f".toList], .file [1, 2, 3, 4, 5])], none, [none]⟩
     let s : SState := { user := some 0, logged := true, passive := true, dataConn := true, restartOffset := 3 }
     let r1 := step cfg w s (.line "RETR f".toList [])
     let s1 := { r1.2.1 with dataConn := true }
     let r2 := step cfg r1.1 s1 (.line "RETR f".toList [])
-    r1.2.2.data = [4, 5] ∧ r1.2.1.restartOffset = 3 ∧ r2.2.2.data = [4, 5] := by
+    r1.2.2.data = [4, 5] ∧ r1.2.1.restartOffset = 0 ∧ r2.2.2.data = [1, 2, 3, 4, 5] := by
   decide
 
-/-- … and it survives an unknown verb and a refused transfer too -/
-theorem rest_survives_unknown_verb (cfg : Cfg) (w : World) (s : SState) (name rest : Str) (payload : Bytes)
+/-- an unknown verb clears the offset too -/
+theorem unknown_verb_clears_restart (cfg : Cfg) (w : World) (s : SState) (name rest : Str) (payload : Bytes)
     (h : verbOf name = none) :
-    (dispatch cfg w s name rest payload).2.1.restartOffset = s.restartOffset := by
+    (dispatch cfg w s name rest payload).2.1.restartOffset = 0 := by
   rw [unknown_502 cfg w s name rest payload h]
+
+/-- **old_offset_outlived_transfer** (what finding F2 was): the pinned dispatcher left both offsets alone for
+    RETR/STOR/APPE and for unknown verbs (effect `(restart, transfer)`) and the workers read `restart_offset`:
+    the offset a transfer saw was still there for the next one. -/
+theorem old_offset_outlived_transfer (s : SState) :
+    evalOff s (OffSrc.restart, OffSrc.transfer).1 = s.restartOffset := rfl
 
 /-! ### pairing and re-login -/
 
